@@ -28,7 +28,7 @@ SOURCE_KINDS = ("call", "mcall", "param", "fread", "fread_this")
 SINK_KINDS = ("call", "mcall", "fwrite", "rwrite")
 BROKEN = ("unrelated-var", "unrelated-field", "unrelated-object", "other-container", "callee-drops", "callee-other-param", "killed")
 SINK_TWISTS = ("wrong-pos", "tainted-receiver", "other-key", "near-miss-name")
-RULE_MODES = ("base", "ext", "never", "away:line", "away:unit", "away:language", "ok:line", "ok:unit")
+RULE_MODES = ("base", "ext", "never", "away:line", "away:unit", "away:language", "away:operation", "ok:line", "ok:unit")
 POS_LETTER = "abc"
 
 
@@ -132,6 +132,8 @@ def source_name(g):
     if sk == "mcall":
         return "object_call", f"conn{suffix}.recvdata{suffix}"
     if sk == "param":
+        if m == "away:operation":
+            return "call_stmt", "preq" + suffix          # a call rule; the program has a parameter of that name
         return "parameter_decl", ("parg" if m == "never" else "preq") + suffix
     if sk == "fread":
         return "field_read", f"cfg{suffix}.secretfld{suffix}"
@@ -146,6 +148,8 @@ def sink_name(g):
         stem = "safesnk" if m == "never" else "dangersnk"
         return "call_stmt", stem + POS_LETTER[g["pos"]] + suffix
     if tk == "mcall":
+        if m == "away:operation":
+            return "call_stmt", f"dbh{suffix}.execq{POS_LETTER[g['pos']]}{suffix}"   # a call rule with a dotted name
         return "object_call", f"dbh{suffix}.execq{POS_LETTER[g['pos']]}{suffix}"
     if tk == "fwrite":
         return "field_write", f"outobj{suffix}.dangerfld{suffix}"
@@ -580,6 +584,8 @@ def make_gadget(rng, gid, k, profile, force=None):
         else:
             side = rng.choice(["src_mode", "snk_mode"])
             g[side] = rng.choice(["ext", "ext", "never", "away:line", "away:unit", "away:language"])
+            if (side == "src_mode" and sk == "param" or side == "snk_mode" and tk == "mcall") and rng.random() < 0.35:
+                g[side] = "away:operation"
     else:
         r = rng.random()
         if r < 0.12:
@@ -713,6 +719,8 @@ def rules_for(case, level):
                 kw["unit_name"] = other_unit
             elif mode == "away:language":
                 kw["lang"] = "java"
+            elif mode == "away:operation":
+                pass
             elif mode == "ok:line":
                 kw["line_num"] = at[1]
             elif mode == "ok:unit":
